@@ -66,6 +66,8 @@ var registry = []propertySpec{
 				Bounds: "every forest shape with <= 3 nodes (8 shapes); quick: per node a tag from 5 root / 5 child tags (INDI, FAM, specialised, unknown, numeric / NAME, DATE, _UID, digit-leading, HUSB under FAM), value of length 0/2, pointer of length 0/1; thorough: 8+8 tags, value length 0/1/3, pointer length 0/2; printable ASCII, all value and pointer bytes and the BOM flag symbolic"},
 			{Name: "VerifC01_Depth", Quick: tierSpec{Cases: 6}, Thorough: tierSpec{Cases: 7}, Sched: -1,
 				Bounds: "chains of nesting depth 8..13 (thorough: and 99) with a symbolic leaf value"},
+			{Name: "VerifC01_FamilyRoles", Quick: tierSpec{Cases: 16}, Thorough: tierSpec{Cases: 16}, Sched: -1,
+				Bounds: "husband / wife nodes inside families and inside NOTE, _GRP, INDI and SOUR records that follow a family (directly, nested one level, and between two families), symbolic pointers and values"},
 			{Name: "VerifC01_AllTags", Quick: tierSpec{Cases: 2 * 167}, Thorough: tierSpec{Cases: 2 * 167}, Sched: -1,
 				Bounds: "each of the 167 registered tags as root record and as child, symbolic value (0 or 2 bytes) and pointer (0 or 2 bytes)"},
 		},
@@ -78,6 +80,8 @@ var registry = []propertySpec{
 		Harnesses: []harnessSpec{
 			{Name: "VerifC02_Levels", Quick: tierSpec{Cases: 8}, Thorough: tierSpec{First: 8, Cases: 4, Split: 3}, Sched: -1,
 				Bounds: "1..2 (thorough: 3) lines x {AllowMultiLine} x {AllowInvalidIndents}; per line: symbolic level digit 0..L, tag from 7 (NOTE INDI FAM HUSB NAME ZZ 7), optional 1-byte xref, 1 or 2 blanks, value of 0/1/2 printable bytes (incl. blank, '@', digits), terminator LF/CR/CRLF/LFLF"},
+			{Name: "VerifC02_Shape", Quick: tierSpec{Cases: 12}, Thorough: tierSpec{Cases: 16}, Sched: -1,
+				Bounds: "files of 4, 5 and 6 (thorough 7) lines with fixed tags and values in which every level digit after the first line is symbolic 0..3: all walks (descents, dedents over several levels, too-deep lines after a dedent) x {AllowInvalidIndents} x {plain tags, a family with HUSB / CHIL / WIFE lines}"},
 		},
 		Assumptions: []string{"lines are sentences of the line grammar (unparsable lines: C03)", "an over-deep first line with AllowInvalidIndents and family-role lines before any family are outside what the reference defines (C03 covers them)"},
 		Outside:     "more than 3 lines, values longer than 2 bytes, control and non-ASCII bytes in values, tags outside the 7-tag alphabet, levels >= 4",
@@ -186,11 +190,11 @@ var registry = []propertySpec{
 		ID:    "C19",
 		Files: map[string][]string{"html": {"zz_verif_html_lib.go", "zz_verif_c19.go"}},
 		Harnesses: []harnessSpec{
-			{Name: "VerifC19_Names", Pkg: "html", Quick: tierSpec{Cases: 6}, Thorough: tierSpec{Cases: 6}, Sched: -1,
+			{Name: "VerifC19_Names", Pkg: "html", Quick: tierSpec{Cases: 9}, Thorough: tierSpec{Cases: 9}, Sched: -1,
 				Bounds: "a 2-person document plus one hostile element: 2 symbolic bytes (0x21-0x7e) in a source pointer, an individual pointer, a surname or a place name; two people whose names collapse to one key; places named like fixed pages; all page groups, show mode"},
 			{Name: "VerifC19_Determinism", Pkg: "html", Quick: tierSpec{Cases: 6}, Thorough: tierSpec{Cases: 6}, Sched: -1, MapOrder: true, Invariant: []string{"site"},
 				Bounds: "a 4-person / 1-family / 1-source document in 3 visibility modes x jobs 1,2, preceded or not by publishing another document in the same execution, under four map iteration policies applied to every map range (insertion order, reversed, rotated, adjacent pairs swapped) with the deterministic goroutine scheduler"},
-			{Name: "VerifC19_Faults", Pkg: "html", Quick: tierSpec{Cases: 2}, Thorough: tierSpec{Cases: 2}, Sched: -1,
+			{Name: "VerifC19_Faults", Pkg: "html", Quick: tierSpec{Cases: 4}, Thorough: tierSpec{Cases: 4}, Sched: -1,
 				Bounds: "file writer failing at the k-th file for every k, jobs 1 and 2"},
 		},
 		Assumptions: []string{"goroutines are scheduled cooperatively (run until blocked, lowest id first): interleavings at arbitrary instructions and the Go memory model are outside the engine"},
@@ -248,6 +252,10 @@ var registry = []propertySpec{
 				Bounds: "source (9 forms) | stage (42 templates: accessors, unknown accessors, First/Last/Length/Only/Combine/NodesWithTagPath/MergeDocumentsAndIndividuals with right and wrong argument counts, objects, variables, operators; numeric arguments as symbolic digits) with one stage (thorough: two) on 4 document sets (small family, empty, single person, two documents); every result to all five formatters"},
 			{Name: "VerifC15_Special", Pkg: "q", Quick: tierSpec{Cases: 38}, Thorough: tierSpec{Cases: 38}, Sched: -1,
 				Bounds: "19 hostile programs (self-referential variables, nil pipelines, deep .Nodes chains, syntax garbage) on 2 document sets"},
+			{Name: "VerifC15_Accessors", Pkg: "q", Quick: tierSpec{Cases: 40}, Thorough: tierSpec{Cases: 40}, Sched: -1,
+				Bounds: "every accessor that reflection exposes (the list printed by 'source | ?') applied to 10 sources (document, individuals, families, names, births, husbands, nodes, strings, a number) on 4 document sets, every result to all five formatters"},
+			{Name: "VerifC15_Arguments", Pkg: "q", Quick: tierSpec{Cases: 26 * 3 * 2}, Thorough: tierSpec{Cases: 26 * 3 * 2}, Sched: -1,
+				Bounds: "26 calls with negative, non-numeric, huge, nested and ill-typed arguments x 3 sources x 2 document sets"},
 			{Name: "VerifC15_Parse", Pkg: "q", Quick: tierSpec{Cases: 4}, Thorough: tierSpec{Cases: 4}, Sched: -1,
 				Bounds: "every query of 0..3 printable ASCII bytes (all bytes symbolic) through tokenizer and parser"},
 		},
@@ -262,8 +270,8 @@ var registry = []propertySpec{
 				Bounds: "both operands are strings of 0..2 (thorough 0..3) symbolic bytes over digits, '.', '-', '+', blank, tab, b/B/z/Z; all six operators through the real BinaryExpr against a reference order written from the statement (numbers as exact rationals)"},
 			{Name: "VerifC16_OperatorsParsed", Pkg: "q", Quick: tierSpec{Cases: 29}, Thorough: tierSpec{Cases: 29}, Sched: -1,
 				Bounds: "28 concrete operand pairs in the spellings outside the symbolic alphabet (exponents, hex, underscores, inf, nan, long mantissas, non-ASCII) and one symbolic byte per side, written as the query \"l\" op \"r\" through tokenizer, parser and engine"},
-			{Name: "VerifC16_Functions", Pkg: "q", Quick: tierSpec{Cases: 22 * 5}, Thorough: tierSpec{Cases: 22 * 5}, Sched: -1,
-				Bounds: "22 queries (accessor chains over Document/Individual/Family/Name, First/Last with a symbolic digit 0..9, Length, Only with a symbolic literal, Combine, NodesWithTagPath, objects, variables) on family documents of 0..4 people whose name bytes are symbolic; JSON of the result against JSON of the value computed with the Go API"},
+			{Name: "VerifC16_Functions", Pkg: "q", Quick: tierSpec{Cases: 25 * 5}, Thorough: tierSpec{Cases: 25 * 5}, Sched: -1,
+				Bounds: "25 queries (accessor chains over Document/Individual/Family/Name, First/Last with a symbolic digit 0..9, Length, Only with a symbolic literal, Combine, NodesWithTagPath, objects, variables) on family documents of 0..4 people whose name bytes are symbolic; JSON of the result against JSON of the value computed with the Go API"},
 			{Name: "VerifC16_Algebra", Pkg: "q", Quick: tierSpec{Cases: 7 * 4}, Thorough: tierSpec{Cases: 7 * 4}, Sched: -1, MapOrder: true,
 				Bounds: "7 list expressions x 5 following stages x 0..3 people: variable inlining, repeatability (under 4 map iteration orders), Combine(E,E) doubling, Only(p)/Only(not p) partition and order"},
 		},
@@ -279,6 +287,16 @@ var registry = []propertySpec{
 		},
 		Assumptions: []string{"every person carries a unique NOTE so that it can be followed through the merge; EqualityMergeFunction for the other records"},
 		Outside:     "documents with more than 4 people per side or several families per person, other merge functions, the query function (C15/C16 harnesses call it on 2 documents), schedules other than the deterministic one (C11)",
+	},
+	{
+		ID:    "C11",
+		Files: map[string][]string{"": {"zz_verif_lib.go", "zz_verif_c11.go"}},
+		Harnesses: []harnessSpec{
+			{Name: "VerifC11_Compare", Quick: tierSpec{Cases: 8 * 4 * 2}, Thorough: tierSpec{Cases: 8 * 4 * 6}, Sched: 1, Invariant: []string{"matching"},
+				Bounds: "8 input scenarios (renumbered edited copy, shared pointers, duplicated unique id, identical twins, empty sides, crossed unique ids, a symbolic name byte) x Jobs in {0,1,2,3} x thresholds (quick: default and a symbolic MinimumWeightedSimilarity in [0,1]; thorough also 0/0, 1/1, 0/1, 1/0); every schedule of the goroutine pipeline with at most 1 pre-emption at channel, sync.Map and mutex operations"},
+		},
+		Assumptions: []string{"goroutines are interleaved at channel, sync.Map, mutex, WaitGroup and Sleep operations only (sequentially consistent memory between them)"},
+		Outside:     "GOMAXPROCS, true parallelism and weak-memory effects, Jobs > 3, lists of more than 4 individuals, the 'gedcom diff' process",
 	},
 	{
 		ID:    "C04",
